@@ -8,6 +8,13 @@
 //! plus `SERVICE_NAME` / `NamedService::NAME`.  `e2e` cases drive the *compiled* generated
 //! clients of the build-time pool against the compiled generated servers.  `regen` runs the real
 //! `codegen` binary on a scratch copy of the repo and byte-compares with the committed files.
+//!
+//! Case kinds: `gen`, `manual`, `prost`, `srv`, `e2e`, `regen` (this file) and, from the dimension
+//! audit aC11 (`c11_x.rs`, see its header): `px` (descriptor SETS × public entry points of the prost
+//! front end × the remaining builder knobs), `gx` (`CodeGenBuilder` with deprecated / commented
+//! methods, attributes, `disable_comments`), `gseq` (one `CodeGenBuilder` value with a history),
+//! `mx` (`manual::Builder::compile` on several services), `cseq` (compiled generated clients:
+//! constructors × call histories), `cmt` (committed files against their own descriptor sets).
 use crate::c10::pool::{self, Built, Ev, Handler, Reg, Wrap, POOL};
 use crate::common::*;
 use proc_macro2::TokenStream;
